@@ -1,4 +1,4 @@
-from props import thriftcommon
+from props import thriftcommon, varint
 from props.common import generic_replay
 
 PROP = "C13"
@@ -12,9 +12,9 @@ ASSUME = ["no reference implementation of Thrift is available offline: only clau
 
 
 def run(tier, seed):
-    return thriftcommon.run(PROP, tier, seed, RULE, ASSUME, shards=4, isolate=(PROP != "C13"),
+    return thriftcommon.run(PROP, tier, seed, RULE + varint.RULES[PROP], ASSUME, shards=4, isolate=(PROP != "C13"),
                             vlimit_kb=(6000000 if PROP == "C08" else None),
-                            map_entries=(1 if PROP == "C13" else 2))   # byte-exact comparison needs a fixed member order
+                            map_entries=(1 if PROP == "C13" else 2), extra_vec=varint.adder(tier))   # byte-exact comparison needs a fixed member order
 
 
 def replay(path, seed):
